@@ -6,9 +6,9 @@
    and last bit are hit), every
    truncation and small extensions, and checks that the independent reading Classes never says "ok".
    Every case is one TLC state; the corpus index and error kind bucket the work over the workers.          *)
-EXTENDS RegpOps, FiniteSets
+EXTENDS RegpOps, FiniteSets, TLC
 
-CONSTANTS MaxBurst, TwoBitFrames
+CONSTANTS MaxBurst, TwoBitFrames, EmitEvery
 
 VARIABLES phase
 Corpus == <<
@@ -57,6 +57,19 @@ Corrupted == IF phase[1] = "c" THEN FlipSet(Corpus[phase[2]], phase[3])
              ELSE IF phase[3] <= Len(Corpus[phase[2]]) THEN Take(Corpus[phase[2]], phase[3])
              ELSE Corpus[phase[2]] \o Fill(phase[3] - Len(Corpus[phase[2]]), 85)
 NeverOk == (phase[1] \in {"c", "t"} /\ ~(phase[1] = "t" /\ phase[3] = Len(Corpus[phase[2]]))) => C_OK \notin Classes(Corrupted)
+(* E1: a deterministic sample of the cases (every single-bit error, every truncation, one burst in EmitEvery) is emitted
+   as an rx event with the set of allowed observations, and replayed on the real receiver *)
+Mem16Of(o) == Has(Fields(o).opts, O_WS16)
+Sampled == \/ phase[1] = "t"
+           \/ phase[1] = "c" /\ (Cardinality(phase[3]) = 1 \/ (LET RECURSIVE Sum(_)
+                                                                     Sum(S) == IF S = {} THEN 0 ELSE LET x == CHOOSE y \in S : TRUE IN x + Sum(S \ {x})
+                                                                 IN Sum(phase[3]) % EmitEvery = 0))
+EmitCases == (phase[1] \in {"c", "t"} /\ Sampled) =>
+    LET o == Corpus[phase[2]]
+        cfg == [tr |-> 0, mem16 |-> Mem16Of(o), cap |-> 192]
+        w == Wire(0, Corrupted)
+        alts == RxAllowedFor(cfg, FALSE, 0, <<0, 0>>, <<>>, w)
+    IN PrintT("C;;rx " \o Join(<<1, 0, IF cfg.mem16 THEN 1 ELSE 0, 192, 0, 0, 0, 0, 0, Len(w)>> \o w) \o " | " \o JoinAlts(SetToSeq(alts)))
 CorpusOk == \A i \in 1..Len(Corpus) : Classes(Corpus[i]) = {C_OK}
 ASSUME CorpusOk
 =============================================================================
